@@ -341,12 +341,13 @@ def ev_kde(case):
     return {"fails": fails[:30], "n": nev, "tags": tags, "slack": slack, "skipped": skipped, "sample": {"sample": spec, "bw": bw, "n_maps_ok": len(ref_rows)}}
 
 
-EVALUATORS = {"kde": ev_kde}
+EVALUATORS = {"multiset": ev_kde, "quantile": ev_kde}
 
 
 def run(ck):
     seed, quick = ck.seed, ck.quick
     maps = [[ae, bm] for ae in A_EXPS for bm in B_MULTS]
+    maps3 = [[0, 0.0], [-20, 1e6], [10, 0.0]]  # quick tier: the heavier blocks use three of the six maps
     stride = [None, 7, 11, 13][seed % 4]
     alphabets = [ALPHABET0, EXTRA_ALPHABETS[seed % len(EXTRA_ALPHABETS)]] if quick else [ALPHABET0] + EXTRA_ALPHABETS
     bws = [{"mode": "user", "factor": f} for f in USER_FACTORS] + [{"mode": "rule"}, {"mode": "cv"}]
@@ -358,35 +359,42 @@ def run(ck):
                 if len(set(ms)) < 2:
                     continue
                 for bw in bws:
-                    cases.append({"sample": {"kind": "multiset", "values": list(ms)}, "bw": bw, "maps": maps, "stride": stride})
-    ck.run_cases("kde", cases)
+                    mp = maps3 if (quick and n == 5) else maps
+                    cases.append({"sample": {"kind": "multiset", "values": list(ms)}, "bw": bw, "maps": mp, "stride": stride})
+    ck.run_cases("multiset", cases)
     # quantile samples
     fams = ["normal", "t2", "bimodal", "ties", "ties-skew"]
     big = 1000 if quick else 2000
     qcases = []
+    sizes = (50, big) if quick else (50, 400, big, 5000)
     for fam in fams:
-        for n in (50, big):
+        for n in sizes:
             if quick and n == big and fam == ["ties", "ties-skew"][seed % 2]:
                 continue
             spec = {"kind": "quantile", "family": fam, "n": n, "stride": stride}
             for bw in bws:
-                qcases.append({"sample": spec, "bw": bw, "maps": maps, "stride": stride})
-            if n == big:
+                if n > 2000 and bw["mode"] == "cv":
+                    continue  # full cross-validation is quadratic in n; n = 5000 goes through the sub-sampled mode below
+                mp = maps3 if (quick and n == big and bw["mode"] == "user") else maps
+                qcases.append({"sample": spec, "bw": bw, "maps": mp, "stride": stride})
+            if n >= big:
                 scripts = [SCRIPTS[seed % len(SCRIPTS)]] if quick else SCRIPTS
                 for sc in scripts:
-                    for mx in ([300] if quick else [300, 1999]):
+                    for mx in ([300] if quick else [300, n - 1]):
+                        if mx > 2000:
+                            continue
                         qcases.append({"sample": spec, "bw": {"mode": "cv-sub", "script": sc, "max": mx}, "maps": maps, "stride": stride})
     # heaviest first so the pool stays busy
     qcases.sort(key=lambda c: -(c["sample"]["n"] * (10 if c["bw"]["mode"].startswith("cv") else 1)))
-    ck.run_cases("kde", qcases, chunk=1)
+    ck.run_cases("quantile", qcases, chunk=1)
     ck.rule = (
         "every multiset of size 3..5 (>=2 distinct values) over the listed 4-letter alphabets, and quantile samples "
-        "{normal, t2, bimodal, two tie-rich} x n in {50, 1000 (quick) / 2000 (thorough)}; x bandwidth mode {user 0.1/0.5/1/10 sd, rule of thumb, cross-validated, "
-        "cross-validated on a scripted sub-sample} x affine maps a in {2^-20,1,2^10}, b in {0,1e6 a}; evaluation points: all dyadic "
+        "{normal, t2, bimodal, two tie-rich} x n in {50, 1000} (quick) / {50, 400, 2000, 5000} (thorough); x bandwidth mode {user 0.1/0.5/1/10 sd, rule of thumb, cross-validated, "
+        "cross-validated on a scripted sub-sample} x affine maps a in {2^-20,1,2^10}, b in {0,1e6 a} (quick tier: three of the six maps for size-5 multisets and for user bandwidths at n=1000); evaluation points: all dyadic "
         "subdivision points of the data range (+-1 ulp) down to below the bandwidth, all sample values, a grid of step <= h/16 reaching 10h "
         "beyond the data, +-30h and +-1000h. A case is distinct by (sample class, bandwidth mode, map, number of look-up regions)."
     )
-    ck.assume("samples are the listed deterministic ones (n <= 2000); bandwidths between 0.1 and 10 sample standard deviations")
+    ck.assume("samples are the listed deterministic ones (n <= 5000); bandwidths between 0.1 and 10 sample standard deviations")
     ck.assume("sub-sampling inside the cross-validation is driven by scripted sequences installed as inference.pdf.kde.random; invariance to the sample order is not asserted for that mode (the sub-sample is positional)")
     ck.assume("conventions for the approximate clauses: |pdf-exact| <= 1e-3/h, |cdf-exact| <= 5e-4, |cdf difference - integral of pdf| <= 1e-3")
     ck.extra["alphabets"] = alphabets
